@@ -279,7 +279,7 @@ theorem shapes_inverse' (J Ji S2 Qb Qq R : Mat ℝ 3 3) (s : ℝ) (b : Vec ℝ 3
 
 theorem calc_S1inv_neg (w : Vec ℝ 3) : SO3.calc_S1inv (vneg w) = SO3.dr_expinv w := by
   ext i j
-  simp only [SO3.calc_S1inv, SO3.dr_expinv, SO3.ad, madd, memoM_eq, Mat.of_get, C04Alg.sqNorm3_neg,
+  simp only [SO3.calc_S1inv, SO3.dr_expinv, SO3.ad, madd, msmul, memoM_eq, Mat.of_get, C04Alg.sqNorm3_neg,
     C04Alg.mmul3, C04SO3.hat_neg, Scalar.nat_real, Nat.cast_ofNat]
   ring
 
